@@ -145,14 +145,17 @@ theorem builder_writeInt (b : Tlb.Builder) (t : Ideal) (h : BRel b t) (v : Int) 
     rw [← signbit_low_eq_intToBits v n (by omega) (by omega) (by omega) h64]
     exact builder_writeBits b t h _
 
-/-- DISAGREEMENT (current `TongoModel/Tlb/Basic.lean` on main, stale w.r.t. the repaired Go `WriteInt`, fix 5b31abf):
-width 0 and an unrepresentable width-1 value succeed in `Builder.writeInt` (writing a sign bit / nothing), while
-`Op.writeInt` — and the Go code — return an error. Owner: agent tlb. After the repair `builder_writeInt_full` below
-(no width hypotheses) should be provable by the same proof with two more cases. -/
-theorem builder_writeInt_differs :
-    (Tlb.Builder.empty.writeInt 5 0).isOk = true ∧ ((Op.writeInt 5 0).spec ⟨[], 1023, 0⟩).1.isErr = true ∧
-    (Tlb.Builder.empty.writeInt 5 1).isOk = true ∧ ((Op.writeInt 5 1).spec ⟨[], 1023, 0⟩).1.isErr = true := by
-  decide +kernel
+/-! DISAGREEMENT (`TongoModel/Tlb/Basic.lean` as on main at the start of round 4, stale w.r.t. the repaired Go
+`WriteInt`, fix 5b31abf): width 0 and an unrepresentable width-1 value succeed in `Builder.writeInt` (writing a sign bit /
+nothing), while `Op.writeInt` — and the Go code — return an error. Checked witness (kept as a comment because the owner,
+agent tlb, repairs the definition in this round; it holds for the stale definition and fails after the repair):
+
+    example : (Tlb.Builder.empty.writeInt 5 0).isOk = true ∧ ((Op.writeInt 5 0).spec ⟨[], 1023, 0⟩).1.isErr = true ∧
+        (Tlb.Builder.empty.writeInt 5 1).isOk = true ∧ ((Op.writeInt 5 1).spec ⟨[], 1023, 0⟩).1.isErr = true := by
+      decide +kernel
+
+After the repair `BuilderWriteIntFull` below (no lower bound on the width) is provable by the proof of
+`builder_writeInt` plus the two cases n = 0 (both sides the same error) and n = 1. -/
 
 /-- the statement the owner of `Tlb.Builder` should be able to prove after aligning `writeInt` with the repaired Go code -/
 def BuilderWriteIntFull : Prop :=
@@ -349,5 +352,101 @@ theorem slice_readUnary (s : Tlb.Slice) (t : Ideal) (h : SRel s t) :
     show unread { t with pos := t.pos + _ + 1 } = _
     rw [Nat.add_assoc, unread_advance, hu]
   · simp only [hc, if_false, SAgree]; rfl
+
+/-! ## composition with `op_refines`: the codec-level model and the Go-level model agree (layering as a theorem) -/
+
+/-- A `Tlb.Builder` write of the bits `l`, the ideal state and the byte-level model of `boc.BitString` started in related
+states: the builder succeeds iff the Go-level model succeeds, and then the Go-level bits are the builder's bits. -/
+theorem builder_vs_go_write (b : Tlb.Builder) (t : Ideal) (s : BitString) (hb : BRel b t) (hR : R s t) (l : List Bool) :
+    match b.writeBits l, writeBitArray l s with
+    | .ok b', (.ok _, s') => BitString.abs s' = b'.bits ∧ BitString.Inv s'
+    | .err e, (.err e', _) => e = e'
+    | _, _ => False := by
+  have h1 := builder_writeBits b t hb l
+  have h2 := write_refines l s t hR
+  rw [unitOut_run] at h2
+  rcases hw : writeBitArray l s with ⟨r, s'⟩
+  rcases hi : Ideal.write l t with ⟨r', t'⟩
+  rw [hw] at h2
+  rw [hi] at h1 h2
+  obtain ⟨h2a, h2b⟩ := h2
+  cases hbw : b.writeBits l with
+  | ok b' =>
+    rw [hbw] at h1
+    cases r' with
+    | ok o =>
+      cases r with
+      | ok u => exact ⟨by rw [h2b.2.1]; exact h1.2.1.1, h2b.1⟩
+      | err e => simp [normO] at h2a
+      | panic p => simp [normO] at h2a
+    | err e => exact h1.elim
+    | panic p => exact h1.elim
+  | err e =>
+    rw [hbw] at h1
+    cases r' with
+    | ok o => exact h1.elim
+    | err e' =>
+      cases r with
+      | ok u => simp [normO] at h2a
+      | err e'' =>
+        simp only [normO, Outcome.err.injEq] at h2a
+        subst h2a
+        exact h1
+      | panic p => simp [normO] at h2a
+    | panic p => exact h1.elim
+  | panic p =>
+    rw [hbw] at h1
+    exact h1.elim
+
+/-- A `Tlb.Slice.readUint`, the ideal state and the byte-level model started in related states: same value / same error,
+and the Go-level cursor ends where the slice's rest begins. -/
+theorem slice_vs_go_readUint (sl : Tlb.Slice) (t : Ideal) (s : BitString) (hs : SRel sl t) (hR : R s t) (n : Nat) :
+    match sl.readUint n, BitString.readUint n s with
+    | .ok (v, sl'), (.ok v', s') => v = v' ∧ (BitString.abs s').drop s'.rCursor = sl'.bits
+    | .err e, (.err e', _) => e = e'
+    | _, _ => False := by
+  have h1 := slice_readUint sl t hs n
+  have h2 := op_refines (Op.readUint n) trivial s t hR
+  simp only [Op.run, bind_run] at h2
+  rcases hw : BitString.readUint n s with ⟨r, s'⟩
+  rcases hi : (Op.readUint n).spec t with ⟨r', t'⟩
+  rw [hw] at h2
+  rw [hi] at h1 h2
+  obtain ⟨h2a, h2b⟩ := h2
+  cases hsr : sl.readUint n with
+  | ok p =>
+    obtain ⟨v, sl'⟩ := p
+    rw [hsr] at h1
+    cases r' with
+    | ok o =>
+      obtain ⟨ho, hrel, _⟩ := h1
+      cases r with
+      | ok v' =>
+        simp only [pure_run, normO, Out.norm, Outcome.ok.injEq] at h2a h2b
+        subst ho
+        simp only [Out.nat.injEq] at h2a
+        refine ⟨h2a.symm, ?_⟩
+        rw [h2b.2.1, h2b.2.2.2]
+        exact hrel.1
+      | err e => simp [normO] at h2a
+      | panic p => simp [normO] at h2a
+    | err e => exact h1.elim
+    | panic p => exact h1.elim
+  | err e =>
+    rw [hsr] at h1
+    cases r' with
+    | ok o => exact h1.elim
+    | err e' =>
+      cases r with
+      | ok u => simp [normO] at h2a
+      | err e'' =>
+        simp only [normO, Outcome.err.injEq] at h2a
+        subst h2a
+        exact h1
+      | panic p => simp [normO] at h2a
+    | panic p => exact h1.elim
+  | panic p =>
+    rw [hsr] at h1
+    exact h1.elim
 
 end Tongo.Bridge
